@@ -418,10 +418,13 @@ fn ops(t: &mut Tape, nq: usize, blocker: bool, extra_pool: &[String]) -> Vec<Op>
 fn regexy_rule(t: &mut Tape) -> String {
     let w = t.choose(&["ads", "banner", "track", "pixel"]);
     let o = t.choose(&["foo", "bar", "img", "x1"]);
-    let p = match t.pick(4) {
-        0 => format!("/{}^{}", w, o),
-        1 => format!("/{}*{}", w, o),
-        2 => format!("/\\/{}\\d?\\/{}/", w, o),
+    let p = match t.pick(9) {
+        0 | 1 => format!("/{}^{}", w, o),
+        2 | 3 => format!("/{}*{}", w, o),
+        4 | 5 => format!("/\\/{}\\d?\\/{}/", w, o),
+        // a full regex the regex crate rejects (look-around): the rule never matches, however
+        // often its cache entry is discarded and rebuilt
+        6 => format!("/\\/{}(?!x)\\/{}/", w, o),
         _ => format!("/{}/{}^", w, o),
     };
     let mut opts = vec![];
@@ -529,8 +532,35 @@ pub fn check_big(c: &crate::gen::NetCase, obs: &mut Obs) -> Result<(), String> {
     Ok(())
 }
 
+/// batch vs one-at-a-time: Blocker::new(L) and Blocker::new([]) + add_filter(l) for l in L answer alike
+pub fn check_incremental(c: &gen::NetCase, obs: &mut Obs) -> Result<(), String> {
+    if has_priority_ties(&c.rules) {
+        obs.exclude("redirect-priority-tie (choice is free)");
+        return Ok(());
+    }
+    let mut refused = vec![];
+    let Some(inc) = incremental_blocker(&c.rules, std_opts(), &c.tags, &mut refused) else {
+        obs.exclude("list with a $badfilter rule (add_filter documents those as unsupported)");
+        return Ok(());
+    };
+    let res = ResourceStorage::from_resources(gen::std_resources());
+    let mut batch = blocker_of(&c.rules, false);
+    batch.use_tags(&c.tags.iter().map(|s| s.as_str()).collect::<Vec<_>>());
+    let got = blocker_answers(&inc, &res, &c.reqs, None);
+    let want = blocker_answers(&batch, &res, &c.reqs, None);
+    obs.inner_evals += got.len() as u64;
+    if want.iter().any(|a| a.contains("matched: true") || a.contains("exception: true") || a.contains("Some(")) {
+        obs.nontrivial = true;
+    }
+    if got != want {
+        let d: Vec<_> = got.iter().zip(want.iter()).filter(|(a, b)| a != b).take(2).collect();
+        return Err(format!("rules {:?} (tags {:?}) added one at a time (refused as duplicates: {:?}) answer differently from the same list loaded in one batch: {:?}", c.rules, c.tags, refused, d));
+    }
+    Ok(())
+}
+
 pub fn check(ctx: &mut Ctx) {
-    ctx.rule = "engine: rule list (network + cosmetic + same-shape tagged regex rules) and a history of 4-24 ops over {query all, query one, use/enable/disable tags, set discard policy (default / discard-everything-always / 1ns,1h / disabled), discard_regex(k-th cached id), serialize+deserialize own bytes, deserialize a sibling engine's bytes, use_resources(one of 3 sets), add_resource(one of 4)}; blocker: the same plus Blocker::optimize() and Blocker::add_filter(line). After every query op all answers (network verdict, csp set, cosmetic resources, class/id selectors) are compared with a freshly built engine/blocker from the model's current rules + tag set. many-regexes: 2-800 same-shape (mostly regex) rules queried one after the other, twice, on one live blocker, sampled answers compared with a blocker built fresh for that single query. Non-trivial = a query op that follows at least one mutator.".into();
+    ctx.rule = "engine: rule list (network + cosmetic + same-shape tagged regex rules) and a history of 4-24 ops over {query all, query one, use/enable/disable tags, set discard policy (default / discard-everything-always / 1ns,1h / disabled), discard_regex(k-th cached id), serialize+deserialize own bytes, deserialize a sibling engine's bytes, use_resources(one of 3 sets), add_resource(one of 4)}; blocker: the same plus Blocker::optimize() and Blocker::add_filter(line). After every query op all answers (network verdict, csp set, cosmetic resources, class/id selectors) are compared with a freshly built engine/blocker from the model's current rules + tag set. many-regexes: 2-800 same-shape (mostly regex) rules queried one after the other, twice, on one live blocker, sampled answers compared with a blocker built fresh for that single query. incremental: C01-style lists (1-20 rules, tags) loaded in one batch (Blocker::new) and one rule at a time (Blocker::add_filter on an empty blocker): equal answers on all requests. Non-trivial = a query op that follows at least one mutator.".into();
     ctx.assumptions = vec![
         "elapsed time is exercised through discard policies and explicit discards; the wall clock is never consulted by the oracle".into(),
         "add_filter of a $badfilter rule, or of a rule an existing $badfilter targets, is documented as unsupported and skipped (counted)".into(),
@@ -542,12 +572,15 @@ pub fn check(ctx: &mut Ctx) {
     drive(ctx, "blocker", n, 900, &decode_blocker, &check_blocker);
     let n = ctx.tier.pick(120, 3_000);
     drive(ctx, "many-regexes", n, 120, &|t| gen::big_group_case(t), &check_big);
+    let n = ctx.tier.pick(80_000, 1_000_000);
+    drive(ctx, "incremental", n, 900, &|t| gen::net_case(t, &NetCfg { max_rules: 20, ..Default::default() }), &check_incremental);
 }
 
 pub fn replay(ctx: &mut Ctx, v: &Value) {
     match v.get("check").and_then(|c| c.as_str()) {
         Some("blocker") => replay_file::<BlkCase>(ctx, v, &check_blocker),
         Some("many-regexes") => replay_file::<crate::gen::NetCase>(ctx, v, &check_big),
+        Some("incremental") => replay_file::<crate::gen::NetCase>(ctx, v, &check_incremental),
         _ => replay_file::<HistCase>(ctx, v, &check_engine),
     }
 }
